@@ -135,3 +135,54 @@ def enumerate_sites(f, bodies):
                           "span": b.blocks[bb]["span"], "body": b, "bb": bb, "const": const_ok, "detail": detail,
                           "exp": b.blocks[bb].get("exp")})
     return sites
+
+
+# ----------------------------------------------------------------------------------------------
+# structured facts that hold at a block (from dominating edges), for automatic discharge
+
+
+def _positive(x, out, depth=0):
+    """x is known to be Some / Ok: derive comparisons from the call that produced it"""
+    if depth > 6:
+        return
+    for a in phi_alts(peel(x)):
+        a = peel(a)
+        if not isinstance(a, tuple):
+            continue
+        if a[0] in ("ok",):
+            _positive(a[1], out, depth + 1)
+        elif is_call(a, "Option::<T>::ok_or", "Option::<T>::ok_or_else", "Result::<T, E>::map_err", "Option::<T>::copied",
+                     "Option::<T>::cloned", "Result::<T, E>::ok") and a[3]:
+            _positive(a[3][0], out, depth + 1)
+        elif is_call(a, "core::slice::<impl [T]>::get", "core::slice::<impl [T]>::get_mut") and len(a[3]) == 2:
+            idx = peel(a[3][1])
+            if not (idx[0] == "agg"):
+                out.append(("lt", show(idx), "len(%s)" % show(peel(a[3][0])), True))
+        elif is_call(a, "checked_sub") and len(a[3]) == 2:
+            out.append(("le", show(peel(a[3][1])), show(peel(a[3][0])), False))
+
+
+def facts(body, bb):
+    """list of (op, lhs, rhs, rhs_is_len) with op in lt/le that hold whenever block bb is reached"""
+    out = []
+    for sbb in body.switches:
+        if sbb not in body.reachable or sbb == bb:
+            continue
+        si = body.switch_info(sbb)
+        c = canon_cmp(si["subject"])
+        for lab, tgt in si["edges"].items():
+            if tgt is None or not body.must_pass([0], [bb], via_edges=[(sbb, tgt)])[0]:
+                continue
+            if c is not None and lab in (True, False):
+                cc = c if lab else negate(c)
+                if cc[0] in ("<", "<="):
+                    out.append(("lt" if cc[0] == "<" else "le", cc[1], cc[2], cc[2].startswith("len(") or "::len(" in cc[2]))
+            if lab in ("Some", "Ok", "Continue"):
+                subj = si["subject"]
+                if lab == "Continue":
+                    for alt in phi_alts(subj):
+                        if is_call(alt, "core::ops::Try::branch") and alt[3]:
+                            _positive(alt[3][0], out)
+                else:
+                    _positive(subj, out)
+    return out
